@@ -9,3 +9,17 @@ package api
 //@   ensures err != nil ==> result0 == nil
 //@   ensures err == nil ==> sigEnt != nil && result0 != nil && sigEnt.Signature.PublicKey == result0.ID
 //@   note an entity descriptor is accepted only if it is signed by the entity's own key (Signed.Open verified the signature; SanityCheck binds the signer to ent.ID)
+
+// ---- runtime staking address (C17: stake claims mirror registrations) ----
+
+//@ import staking "github.com/oasisprotocol/oasis-core/go/staking/api"
+//@ ghost func RtHasAddr(r *Runtime) bool { return r.GovernanceModel == GovernanceEntity || r.GovernanceModel == GovernanceRuntime }
+//@ ghost func RtAddr(r *Runtime) staking.Address { return ite(r.GovernanceModel == GovernanceEntity, staking.AddrOf(r.EntityID), ufr[staking.Address]("runtimeAddrOf", r.ID)) }
+
+//@ func Runtime.StakingAddress
+//@   props C17
+//@   requires r != nil
+//@   modifies nothing
+//@   ensures result1 == RtHasAddr(r)
+//@   ensures result1 ==> result0 != nil && fresh(result0) && *result0 == RtAddr(r)
+//@   ensures !result1 ==> result0 == nil
